@@ -9,6 +9,8 @@ from .keys import check_keying
 def check(ck):
     from .memo import check_new_memo_tables
     ck.run(check_new_memo_tables, ck, "C01.M1", ('code_hash', 'memento', 'reference', 'runner_local', 'runner', 'base'))
+    ck.rule("C01.R11", "every referenced symbol is watched by a hash rule", 1)
+    ck.run(H.check_every_symbol_watched, ck, "C01.R11")
     ck.run(H.check_hash_input_coverage, ck, "C01.R1")
     ck.run(H.check_rule_kinds_contribute, ck, "C01.R2")
     ck.run(H.check_digest_consumes_rules, ck, "C01.R3")
